@@ -586,6 +586,7 @@ func (d *drv) runFormats(g *gen, n int) map[string]any {
 		want := []string{coqOfAny(&cc)}
 		ccDone := cc
 		ccDone.Complete()
+		d.checkPreserved("client", &cc, &ccDone, "")
 		wantDone := []string{coqOfAny(&ccDone)}
 		plist := []obj{}
 		for k := 0; k < 1+g.intn(3); k++ {
@@ -594,6 +595,7 @@ func (d *drv) runFormats(g *gen, n int) map[string]any {
 			want = append(want, coqCfg(c))
 			e := cloneProxy(c)
 			e.Complete(cc.User)
+			d.checkPreserved("proxy", c, e, "")
 			wantDone = append(wantDone, coqCfg(e))
 		}
 		tree = append(tree, kv{"proxies", plist})
@@ -605,6 +607,7 @@ func (d *drv) runFormats(g *gen, n int) map[string]any {
 				want = append(want, coqVisitor(vc))
 				e := cloneVisitor(vc)
 				e.Complete(&ccDone)
+				d.checkPreserved("visitor", vc, e, "")
 				wantDone = append(wantDone, coqVisitor(e))
 			}
 			tree = append(tree, kv{"visitors", vlist})
@@ -616,6 +619,7 @@ func (d *drv) runFormats(g *gen, n int) map[string]any {
 			sc, stree := g.serverCfgDoc()
 			scDone := sc
 			scDone.Complete()
+			d.checkPreserved("server", &sc, &scDone, string(render(stree)["toml"]))
 			d.checkDoc(g, serverKind, stree, coqOfAny(&sc), coqOfAny(&scDone), i%4 == 1, st, levels, dir)
 		}
 	}
